@@ -36,18 +36,7 @@ class UnboundColumn(NotSupported):
     pass
 
 
-def untraced(fn: Callable[[], Any]) -> Any:
-    """Run SQLAlchemy's own statement introspection outside CrossHair tracing (its compiler builds
-    sets of column objects, whose == is overloaded, which CrossHair's patched containers cannot hold).
-    Only statement STRUCTURE is computed here, never data."""
-    try:
-        from crosshair.tracers import NoTracing, is_tracing
-    except Exception:  # pragma: no cover
-        return fn()
-    if is_tracing():
-        with NoTracing():
-            return fn()
-    return fn()
+from vlib.core import untraced  # noqa: E402,F401
 
 
 STRING_CODES: dict[str, int] = {}
